@@ -48,8 +48,10 @@ func vhQuery(q int, tail []string) []string {
 		head, area = []string{"NEARBY", "k"}, []string{"IDS", "POINT", "0", "0"}
 	case 5:
 		head = []string{"SEARCH", "k"}
-	default:
+	case 6:
 		head = []string{"SEARCH", "k", "DESC"}
+	default:
+		head, area = []string{"INTERSECTS", "k", "SPARSE", "1"}, []string{"IDS", "BOUNDS", "-10", "-10", "10", "10"}
 	}
 	args := append([]string(nil), head...)
 	args = append(args, tail...)
@@ -97,7 +99,7 @@ func vhPaging(q int, n int, symbolicIDs bool, filterKinds []int) {
 		} else {
 			ids[i] = string(rune('a' + i))
 		}
-		if q >= 5 {
+		if q == 5 || q == 6 {
 			// SEARCH iterates string values: the byte is the value, ids are fixed
 			vhDo(s, "SET", "k", vhDigits[i], "FIELD", "f", vhDigits[i], "STRING", ids[i])
 		} else if q == 4 && i < 3 {
@@ -111,13 +113,13 @@ func vhPaging(q int, n int, symbolicIDs bool, filterKinds []int) {
 			vhDo(s, "SET", "k", ids[i], "FIELD", "f", vhDigits[i], "STRING", "v")
 		}
 	}
-	if q >= 5 {
+	if q == 5 || q == 6 {
 		// geometries next to the strings: SEARCH must page over the strings only
 		for g := vchoose(3); g > 0; g-- {
 			vhDo(s, "SET", "k", "g"+vhDigits[g], "POINT", vhDigits[g], vhDigits[g])
 		}
 	}
-	if q >= 2 && q <= 4 {
+	if (q >= 2 && q <= 4) || q == 7 {
 		// objects whose bounding box straddles the edge of the search area: candidates that the exact predicate
 		// of WITHIN rejects, visited between the accepted ones
 		vhDo(s, "SET", "k", "r1", "BOUNDS", "0.5", "0.5", "20", "20")
@@ -163,13 +165,17 @@ func VH_C11_paging_scan() {
 	vhPaging(vchoose(2), n, true, fk)
 }
 
-//verif:cfg quick.b_objects=3 thorough.b_objects=4 b_ids=concrete b_filter=none|MATCH_X*|MATCH_literal+X*|WHERE_range|WHEREIN b_limit=1..n+1 b_queries=WITHIN,INTERSECTS,NEARBY(three_objects_at_the_same_distance)
+//verif:cfg quick.b_objects=3 thorough.b_objects=4 b_ids=concrete b_filter=none|MATCH_X*|MATCH_literal+X*|WHERE_range|WHEREIN b_limit=1..n+1 b_queries=WITHIN,INTERSECTS,NEARBY(three_objects_at_the_same_distance),INTERSECTS_SPARSE_1
 func VH_C11_paging_spatial() {
 	n := 3
 	if vthorough() {
 		n = 4
 	}
-	vhPaging(2+vchoose(3), n, false, []int{0, 1, 2, 4, 5})
+	q := 2 + vchoose(4)
+	if q == 5 {
+		q = 7 // INTERSECTS ... SPARSE 1
+	}
+	vhPaging(q, n, false, []int{0, 1, 2, 4, 5})
 }
 
 //verif:cfg quick.b_objects=3 thorough.b_objects=4 b_values=1_symbolic_byte_each b_other_objects=0..2_geometries_in_the_same_collection b_filter=none|MATCH_X*|WHERE_range|WHEREIN b_limit=1..n+1 b_queries=SEARCH,SEARCH_DESC
